@@ -103,9 +103,23 @@ pub fn check_text(text: &str, origin: &Value, stats: &mut Stats) -> Result<Optio
                 idx
             };
             let ctx = f::comment_context(text, kept_index);
-            let before = ctx.rsplit('_').next().unwrap_or("?").to_string();
+            // the token class that follows the comment; a comment right after the projection slash is its own class
+            let before = if ctx.starts_with("/_") { "(after /)".to_string() } else { ctx.rsplit('_').next().unwrap_or("?").to_string() };
             if std::env::var_os("VERIF_SURVEY").is_some() {
                 stats.count(&format!("survey-moved:before {before}"));
+                // show the neighbourhood of the comment in input and output
+                let items = crate::scan::scan(text);
+                let coms: Vec<(usize, usize)> = items.iter().filter_map(|it| if let crate::scan::Item::Com(c) = it { Some((c.start, c.end)) } else { None }).collect();
+                if let Some((cs, ce)) = coms.get(kept_index) {
+                    let lo = text[..*cs].char_indices().rev().nth(50).map(|x| x.0).unwrap_or(0);
+                    let hi = text[*ce..].char_indices().nth(50).map(|x| ce + x.0).unwrap_or(text.len());
+                    let ctext = &text[*cs..*ce];
+                    let nth = text[..*cs].matches(ctext).count();
+                    let opos = out.match_indices(ctext).nth(nth).map(|x| x.0).unwrap_or(0);
+                    let olo = out[..opos].char_indices().rev().nth(50).map(|x| x.0).unwrap_or(0);
+                    let ohi = out[opos + ctext.len().min(out.len() - opos)..].char_indices().nth(50).map(|x| opos + ctext.len() + x.0).unwrap_or(out.len());
+                    eprintln!("SURVEY before {before} ctx {ctx}\n  IN : {:?}\n  OUT: {:?}", &text[lo..hi], &out[olo..ohi.min(out.len())]);
+                }
                 return Ok(Some(out));
             }
             return Err(Fail::new(
